@@ -20,6 +20,31 @@ pub struct CleanImage {
     pub state: MState,
     pub entries: Vec<(LogId, String)>,
     pub ops: Vec<String>,
+    /// chunk files the history deleted (all their entries purged) that abut the oldest retained chunk, oldest first:
+    /// a crash between the sync of the purge record and the worker's unlink leaves exactly these in the directory
+    pub leftover: Image,
+}
+
+impl CleanImage {
+    /// The same journal as a crash between "purge record synced" and "purged chunk files unlinked" leaves it: the
+    /// purged chunk files are still there. Only returned when the real store recovers it to the same state and entries.
+    pub fn with_leftover(&self) -> Option<CleanImage> {
+        if self.leftover.is_empty() {
+            return None;
+        }
+        let mut img = self.leftover.clone();
+        img.extend(self.img.iter().cloned());
+        let idir = ImageDir::new("leftover");
+        let cfg = { let mut c = self.cfg.clone(); c.truncate = None; c };
+        // (an open that succeeds may clean the purged files up; that is not judged here)
+        let (res, _after) = open_and_read(&idir, &img, &cfg);
+        match res {
+            Opened::Ok { state, entries: Ok(es) } if state == self.state && es == self.entries => {
+                Some(CleanImage { img, cfg: self.cfg.clone(), state, entries: es, ops: self.ops.clone(), leftover: vec![] })
+            }
+            _ => None,
+        }
+    }
 }
 
 /// Run a generated history on the real store (free-running worker), flush, close, and take the directory.
@@ -62,10 +87,21 @@ pub fn make_clean_image_opt(seed: u64, hist: u64, max_bytes: usize, d7_free: boo
         if let Ok(mut run) = seq::Runner::new(&case, &dir) {
             run.check_each = false;
             ok = true;
+            // every chunk file ever seen complete (closed chunk files never change)
+            let mut seen: BTreeMap<u64, Vec<u8>> = BTreeMap::new();
+            let has_purge = case.steps.iter().any(|s| matches!(s.op, store::Op::Purge(_)));
             for i in 0..case.steps.len() {
                 if run.step(i).is_err() {
                     ok = false;
                     break;
+                }
+                if has_purge && run.st.rl.is_some() && run.st.wait_idle(2_000) {
+                    for (c, path) in store::list_chunks(&dir) {
+                        let len = std::fs::metadata(&path).map(|m| m.len() as usize).unwrap_or(0);
+                        if seen.get(&c).map(|b| b.len()) != Some(len) {
+                            seen.insert(c, std::fs::read(&path).unwrap_or_default());
+                        }
+                    }
                 }
             }
             if ok && run.st.sync().is_ok() {
@@ -81,7 +117,16 @@ pub fn make_clean_image_opt(seed: u64, hist: u64, max_bytes: usize, d7_free: boo
                     eprintln!("DEBUG clean image: store entries {:?} != model {:?}; state {:?}", entries.iter().map(|e| e.0).collect::<Vec<_>>(), run.m.entries().iter().map(|e| e.0).collect::<Vec<_>>(), state);
                 }
                 if total <= max_bytes && !img.is_empty() && state == run.m.st && entries == run.m.entries() {
-                    out = Some(CleanImage { img, cfg: case.cfg.clone(), state, entries, ops: crate::genr::steps_brief(&case.steps) });
+                    // deleted chunk files that abut the oldest retained one (walking backwards)
+                    let mut leftover: Image = vec![];
+                    let mut next = img[0].0;
+                    for (c, b) in seen.iter().rev() {
+                        if *c < next && *c + b.len() as u64 == next && !b.is_empty() {
+                            leftover.insert(0, (*c, b.clone()));
+                            next = *c;
+                        }
+                    }
+                    out = Some(CleanImage { img, cfg: case.cfg.clone(), state, entries, ops: crate::genr::steps_brief(&case.steps), leftover });
                 }
             } else {
                 run.st.close();
@@ -751,6 +796,37 @@ pub fn run_shard(ctx: &mut Ctx) {
             c10_image(&ci, &mut r, &mut s10, &mut viols, deadline, ctx.tier == Tier::Thorough);
             ctx.out.evaluations += s10.opens - before10;
         }
+        if is09 {
+            // the same journal with the purged chunk files still present (crash between the sync of the purge record
+            // and the unlink): every alteration must be reported and a refused open must leave those files alone too
+            let mut lo = ci.with_leftover();
+            if lo.is_none() && h == 1 {
+                // make sure every shard sweeps at least one such image
+                for k in 0..60u64 {
+                    if !ctx.time_left() {
+                        break;
+                    }
+                    if let Some(c2) = make_clean_image_opt(r.next(), 500_000 + k + ctx.shard as u64 * 1_000_000, max_bytes, false) {
+                        lo = c2.with_leftover();
+                        if lo.is_some() {
+                            break;
+                        }
+                    }
+                }
+            }
+            if let Some(lo) = lo {
+                let b = s09.opens;
+                let all = ctx.tier == Tier::Thorough;
+                let done = c09_image(&lo, &mut r, all, &mut s09, &mut viols, deadline);
+                if done && all {
+                    s09.exhaustive_images += 1;
+                }
+                ctx.out.evaluations += s09.opens - b;
+                ctx.out.count("images_with_purged_chunk_files_still_present", 1);
+                ctx.out.count("purged_chunk_files_still_present", (lo.img.len() - ci.img.len().min(lo.img.len())) as u64);
+                ctx.out.distinct.insert(crate::shadow::image_hash(&lo.img));
+            }
+        }
         ctx.out.count("images", 1);
         ctx.out.count("image_bytes", ci.img.iter().map(|f| f.1.len() as u64).sum());
         ctx.out.count("image_chunk_files", ci.img.len() as u64);
@@ -800,7 +876,7 @@ pub fn replay(vj: &Value, is09: bool) -> Option<Viol> {
             println!("original image does not open");
             return None;
         };
-        let ci = CleanImage { img: orig.clone(), cfg: cfg.clone(), state, entries, ops: vec![] };
+        let ci = CleanImage { img: orig.clone(), cfg: cfg.clone(), state, entries, ops: vec![], leftover: vec![] };
         let mut stats = C09Stats::default();
         if let Some(rc) = mu["removed_chunk"].as_u64() {
             let (res, _) = open_and_read(&idir, &img, &cfg);
@@ -825,7 +901,7 @@ pub fn replay(vj: &Value, is09: bool) -> Option<Viol> {
         let field = fields.iter().find(|(a, b, _)| off - rs >= *a && off - rs < *b).map(|f| f.2);
         c09_judge(&ci, &idir, &img, fidx, rs, field, mu.clone(), &mut stats)
     } else {
-        let ci = CleanImage { img: img.clone(), cfg: cfg.clone(), state: MState::default(), entries: vec![], ops: vec![] };
+        let ci = CleanImage { img: img.clone(), cfg: cfg.clone(), state: MState::default(), entries: vec![], ops: vec![], leftover: vec![] };
         let mut stats = C10Stats::default();
         let mut r = Rng::new(1);
         let (good, bad_tail) = if let Some(c) = mu["cut_newest_chunk_at"].as_u64() {
